@@ -263,9 +263,29 @@ class Engine:
         if k == "seq":
             n = z3.Int(name + ".len")
             ctx.assume(n >= 0)
+            ctx.seq_lens.append(n)
             arrays = self.make_arrays(ctx, shape.elem, name, z3.IntSort())
             sq = SymSeq(n, ArrShape(self, shape.elem, ctx), arrays)
             sq.pyshape = shape
+            return sq
+        if k == "setseq":
+            n = z3.Int(name + ".len")
+            ctx.assume(n >= 0)
+            ctx.seq_lens.append(n)
+            arrays = self.make_arrays(ctx, shape.elem, name, z3.IntSort())
+            sq = SymSeq(n, ArrShape(self, shape.elem, ctx), arrays)
+            sq.pyshape = shape
+            sq.is_set = True
+            it = ctx.it
+            a = z3.Int(fresh_name("da"))
+            b = z3.Int(fresh_name("db"))
+            rng = z3.And(0 <= a, a < b, b < n)
+            try:
+                eq = it.try_nofork(rng, lambda: it.truth(it.equal(sq.get(a), sq.get(b))))
+                eqz = zbool(eq) if not isinstance(eq, bool) else z3.BoolVal(eq)
+                ctx.assume(z3.ForAll([a, b], z3.Implies(rng, z3.Not(eqz))))
+            except Infeasible:
+                pass
             return sq
         if k == "set":
             ks = self.key_sort(shape.elem)
@@ -350,6 +370,7 @@ class Engine:
         if isinstance(v, SymSeq):
             n = z3.Int(nm + ".len")
             ctx.assume(n >= 0)
+            ctx.seq_lens.append(n)
             arrays = self.make_arrays(ctx, v.pyshape.elem, nm, z3.IntSort())
             sq = SymSeq(n, v.shape, arrays)
             sq.pyshape = v.pyshape
@@ -640,13 +661,33 @@ class Engine:
             result = self.make_sym(ctx, c.result, fresh_name("ret_" + short.split(".")[-1]))
         sfr.locals["result"] = result
         ctx.old = (old_locals, old_heap)
+        hints = getattr(self.current, "instantiate", {}).get(target, [])
+        ctx.assuming += 1
         try:
             for nm, expr in c.ensures.items():
-                g = self.eval_clause(it, expr, sfr)
-                ctx.assume(zbool(g) if not isinstance(g, bool) else g)
+                used = self.clause_names(expr) & set(c.ghost)
+                if not used:
+                    g = self.eval_clause(it, expr, sfr)
+                    ctx.assume(zbool(g) if not isinstance(g, bool) else g)
+                    continue
+                # clause quantified over the callee's ghosts: instantiate with the caller's hints
+                for hint in hints:
+                    if not used <= set(hint):
+                        continue
+                    hfr = Frame(cm, dict(sfr.locals), closure=None)
+                    hfr.is_spec_root = True
+                    cfr = self.caller_spec_frame
+                    for gname, gexpr in hint.items():
+                        hfr.locals[gname] = it.eval(self.parse_clause(gexpr), cfr) if isinstance(gexpr, str) else gexpr
+                    g = self.eval_clause(it, expr, hfr)
+                    ctx.assume(zbool(g) if not isinstance(g, bool) else g)
         finally:
             ctx.old = saved_old
+            ctx.assuming -= 1
         return result
+
+    def clause_names(self, expr):
+        return {n.id for n in ast.walk(self.parse_clause(expr)) if isinstance(n, ast.Name)}
 
     def havoc_path(self, it, sfr, path, c):
         """`self.field` or `param.field`: replace by a fresh value of the declared shape."""
@@ -691,6 +732,7 @@ class Engine:
             ctx = Ctx(self, prefix, mode="ieee" if c.mode == "ieee" else "real", timeout_ms=self.timeout_ms)
             ctx.function = c.target.split(":")[-1]
             it = Interp(self, ctx)
+            ctx.it = it
             try:
                 self.run_path(it, c, mi, clsnode, fn, rep, regimes)
             except Infeasible:
